@@ -52,6 +52,16 @@ def run(chk):
     chk.attempt("funcfl", lambda: W.eam_api_vs_spec(chk, "C19.F1", P, "atsim.potentials._lammpsWriteEAM", "writeFuncFL", "funcfl"))
     chk.attempt("excel-pair", lambda: excel_pair(chk, P))
     chk.attempt("excel-eam", lambda: excel_eam(chk, P))
+    # the spreadsheet classes build their workbook once and keep it: a build that failed must not be kept (a second write on the
+    # same object would emit the half-filled sheets) - the retry experiment of C17 on the three Excel classes, evaluated here
+    from ..report import RuleView
+    from . import c17
+    chk.rule("C19.X3", "Excel classes: a write that failed leaves no half-built workbook behind for a second write", 6)
+    view_x3 = RuleView(chk, "C19.X3")
+    J0 = W.make_interp(P)
+    for fq, (ci, how) in sorted(c17.registered_classes(P, J0).items()):
+        if "Excel" in ci.name:
+            chk.attempt("X3/" + ci.name, lambda ci=ci, how=how: c17.retry(view_x3, P, ci, how))
     for target, cls, eam in (("GULP", "GULP_PairTabulation", False), ("excel", "Excel_PairTabulation", False),
                              ("excel_eam", "Excel_EAMTabulation", True)):
         chk.attempt("F/" + target, lambda: W.factory_route(chk, P, "C19.F", W.resolve_target(P, target), cls, eam=eam, label=target))
